@@ -70,7 +70,7 @@ def check_case(case, common, out, collect=None):
             viol(out, f"C01.stage[{stage}]:optimized-fails-unoptimized-succeeds", cid, got[1], replay)
             stage_failed = True
             continue
-        r = D.equiv(ref[1], got[1], prog.order_free, prog.index_free)
+        r = D.equiv_headtail(ref[1], got[1], case[3], prog.order_free, prog.index_free)
         if r is False:
             viol(out, f"C01.stage[{stage}]:result-differs", cid, f"unoptimized={D.describe(ref[1])} optimized={D.describe(got[1])}", replay)
             stage_failed = True
@@ -82,7 +82,7 @@ def check_case(case, common, out, collect=None):
     bump(out, "C01.compute:compute()~den(e)", cid, rule="FrameBase.compute() (optimize + fuse) against the unoptimized reference")
     if pub[0] == "err":
         viol(out, "C01.compute:optimized-fails-unoptimized-succeeds", cid, pub[1], replay)
-    elif D.equiv(ref[1], pub[1], prog.order_free, prog.index_free) is False:
+    elif D.equiv_headtail(ref[1], pub[1], case[3], prog.order_free, prog.index_free) is False:
         viol(out, "C01.compute:result-differs", cid, f"unoptimized={D.describe(ref[1])} compute()={D.describe(pub[1])}", replay)
     if rc:
         fired = rc.fired - f0
